@@ -91,6 +91,7 @@ fn main() {
             let file = args.get(3).cloned().unwrap_or_default();
             let tz = peek_tz(Path::new(&file)).unwrap_or_else(|| "UTC".into());
             vtime::apply_tz(&tz);
+            std::env::set_var("FLV_REPLAY", "1");
             dispatch!(id.as_str(), replay, Path::new(&file))
         }
         Some("worker") => {
